@@ -39,6 +39,7 @@ Fixpoint attempt {A} (p : prog A) : prog (A + rerr) :=
   match p with
   | Ret a => Ret (inl a)
   | Fail EPanic => Fail EPanic        (* a panic unwinds through everything *)
+  | Fail ECancelled => Fail ECancelled  (* never raised by a program: only a pending await_irq ends a run this way *)
   | Fail e => Ret (inr e)
   | Do a k h => Do a (fun r => attempt (k r)) (fun e => attempt (h e))
   end.
